@@ -123,13 +123,6 @@ def check(prop, tier, seed):
 
     seen_known = set()
     new_failures = []
-    for i in corr_bad:
-        c = cases[i]
-        sig = signature(c, "correspondence")
-        if sig and any(k["signature"] == sig for k in known):
-            seen_known.add(sig)
-            continue
-        new_failures.append((c, "implementation and model disagree", True))
     for c, msg in oracle_failures:
         sig = signature(c, msg)
         if sig and any(k["signature"] == sig for k in known):
@@ -137,6 +130,13 @@ def check(prop, tier, seed):
             continue
         new_failures.append((c, msg, False))
 
+    for i in corr_bad:
+        c = cases[i]
+        sig = signature(c, "correspondence")
+        if sig and any(k["signature"] == sig for k in known):
+            seen_known.add(sig)
+            continue
+        new_failures.append((c, "implementation and model disagree", True))
     # every open known finding is replayed from its recorded minimal input
     for k in known:
         c = mod.make_case(k["minimal_input"])
